@@ -121,6 +121,12 @@ func (e *env) call(f fn, args ...*rv) (value.Value, outcome, []value.Value) {
 	for i, a := range args {
 		vals[i] = e.bd.build(a)
 	}
+	v, o := e.eval(f, vals)
+	return v, o, vals
+}
+
+// eval evaluates f on the given argument values and classifies the result.
+func (e *env) eval(f fn, vals []value.Value) (value.Value, outcome) {
 	e.sn.hit = false
 	var v value.Value
 	var err error
@@ -139,15 +145,48 @@ func (e *env) call(f fn, args ...*rv) (value.Value, outcome, []value.Value) {
 		if len(msg) > 160 {
 			msg = msg[:160] + "…"
 		}
-		return nil, outcome{c: 'E', panicked: e.sn.hit || escaped, escaped: escaped, msg: msg}, vals
+		return nil, outcome{c: 'E', panicked: e.sn.hit || escaped, escaped: escaped, msg: msg}
 	}
 	if b, ok := v.(value.Bool); ok {
 		if b {
-			return v, outcome{c: 'T'}, vals
+			return v, outcome{c: 'T'}
 		}
-		return v, outcome{c: 'F'}, vals
+		return v, outcome{c: 'F'}
 	}
-	return v, outcome{c: 'V', msg: render(v)}, vals
+	return v, outcome{c: 'V', msg: render(v)}
+}
+
+// checkStable: comparing must not change what is compared. Every operator is evaluated twice on the
+// SAME operand values (not on fresh copies, as everywhere else): both evaluations must agree, and
+// afterwards each operand must still equal a freshly built copy of itself exactly as a fresh copy does.
+func (e *env) checkStable(s sink, i, j int) {
+	x, y := e.pool[i], e.pool[j]
+	for k, op := range ops {
+		vals := []value.Value{e.bd.build(x), e.bd.build(y)}
+		_, o1 := e.eval(e.opFn[k], vals)
+		_, o2 := e.eval(e.opFn[k], vals)
+		if exp := refOp(op, x, y); o1.c != o2.c && exp.r == 'U' {
+			// e.g. maps with an unequal and an incomparable entry: which one is met first is not determined
+			s.Unspecified(exp.why)
+			continue
+		}
+		if o1.c != o2.c {
+			s.Violate("an operator evaluated a second time on the same operand values gives another outcome (it changed an operand)",
+				e.repro("operand-stability", i, j, -1, "a "+op+" b; a "+op+" b"), "second evaluation: "+o1.String(), "second evaluation: "+o2.String(), "")
+			continue
+		}
+		for w, a := range []*rv{x, y} {
+			_, fresh := e.eval(e.opFn[opEq], []value.Value{e.bd.build(a), e.bd.build(a)})
+			_, used := e.eval(e.opFn[opEq], []value.Value{vals[w], e.bd.build(a)})
+			if fresh.c != used.c && refOp("=", a, a).r == 'U' {
+				continue
+			}
+			if fresh.c != used.c {
+				s.Violate("an operand no longer equals a fresh copy of itself after it was compared",
+					e.repro("operand-stability", i, j, -1, "a "+op+" b; "+[]string{"a", "b"}[w]+" = copy"), "as between two fresh copies: "+fresh.String(), used.String(), "")
+			}
+		}
+	}
 }
 
 func render(v value.Value) (s string) {
@@ -709,6 +748,23 @@ func run(ctx *bex.Ctx) {
 		return true
 	})
 	ctx.SpaceDone(fmt.Sprintf("all %d x %d ordered pairs of the pool x 7 operators (= != < > <= >= ~); reference relation + all pair laws", n, n))
+
+	ctx.Space("operand-stability")
+	idx = 0
+	pairsByMax(n, func(i, j int) bool {
+		idx++
+		if !ctx.Mine(idx) {
+			return true
+		}
+		if ctx.Expired() {
+			return false
+		}
+		ctx.Begin(func() map[string]any { return e.repro("operand-stability", i, j, -1, "a op b; a op b") })
+		ctx.EvalN(int64(2 * len(ops)))
+		e.checkStable(ctx, i, j)
+		return true
+	})
+	ctx.SpaceDone(fmt.Sprintf("all %d x %d ordered pairs x 7 operators evaluated twice on the same operand values (second outcome = first), then each operand compared with a fresh copy of itself", n, n))
 
 	ctx.Space("transitivity")
 	idx = 0
